@@ -636,7 +636,7 @@ func (e *Engine) Run() {
 			continue
 		}
 		idx := r.T.Biased(len(acts), e.PermNum, e.PermDen)
-		r.Logf("act   %s", acts[idx].name)
+		r.Logf("act   %s [%d/%d @%d]", acts[idx].name, idx, len(acts), r.T.Pos)
 		acts[idx].do()
 		e.Actions++
 		if e.OnQuiescent != nil && !r.HeldNow() {
@@ -653,6 +653,11 @@ func (e *Engine) Run() {
 		}
 	}
 	if !e.finished() {
+		if e.Stuck != nil {
+			r.Logf("engine: action limit reached")
+			e.Stuck()
+			return
+		}
 		r.Troublef("engine: action limit reached")
 	}
 }
